@@ -370,7 +370,7 @@ func main() {
 		small := make([][]setter, fds.Len())
 		redMax, smallMax := 6, 3
 		if f.Thorough() {
-			redMax, smallMax = 14, 5
+			redMax, smallMax = 1000, 9
 		}
 		pick := func(l []setter, n int) []setter {
 			if len(l) <= n {
